@@ -4,6 +4,7 @@ import (
 	"fmt"
 	"math/rand"
 	"sort"
+	"strings"
 	"sync"
 
 	"github.com/vechain/thor/v2/thor"
@@ -74,12 +75,12 @@ type task struct {
 func (s *sched) spawn(name string, weight int, fn func()) *task {
 	t := &task{name: name, resume: make(chan struct{}), parked: make(chan string), weight: weight, where: "start"}
 	s.tasks = append(s.tasks, t)
-	go func() {
+	go guard("task "+name, func() {
 		<-t.resume
 		fn()
 		t.done = true
 		t.parked <- "done"
-	}()
+	})
 	return t
 }
 
@@ -97,7 +98,7 @@ func (s *sched) yield(point string) {
 func (s *sched) step(t *task) string {
 	s.cur = t
 	t.resume <- struct{}{}
-	p := <-t.parked
+	p := await(t.parked, "task "+t.name+" after "+t.where) // watchdog: a task that never parks again is a hang
 	t.where = p
 	s.cur = nil
 	return p
@@ -154,6 +155,12 @@ type tracer struct {
 	mu    sync.Mutex
 	gate  func(kind string) // nil: never block
 	seen  func(ev txpool.VerifEvent)
+	// holdEval may park the wash goroutine between the (lock-free) publication of a pricing and the logging of the eval
+	// event; it returns true if it did
+	holdEval func(ev txpool.VerifEvent) bool
+	// isPacker tells whether the calling goroutine runs the node's packer loop body: its pool.Remove calls
+	// (cleanupTransactions) are operations nobody announced, the tracer logs their begin/end itself
+	isPacker func() bool
 	stale int // promote events (successful) of an object that was not the pooled object of its hash
 	cur   map[thor.Bytes32]uint64
 }
@@ -327,11 +334,27 @@ func (t *tracer) handle(ev txpool.VerifEvent) {
 	case "wash.end":
 		out["e"] = "wash_end"
 		out["failed"] = ev.Err != ""
+	case "pre.remove":
+		emit = false
+		if t.isPacker != nil && t.isPacker() {
+			// GetByID let it through; RemoveByHash is next. The block the packer just committed is the head by now.
+			e.syncHead()
+			e.evs.emit(trace.Ev{"e": "RemoveBegin", "g": 95, "h": t.hname(ev.Hash)})
+		}
 	default:
 		emit = false // pre.* and eval.begin are gates only
 	}
 	if emit {
-		e.evs.put(ev.Seq, out)
+		seq := ev.Seq
+		if t.holdEval != nil && strings.HasPrefix(ev.Kind, "eval.") && ev.Kind != "eval.begin" && t.holdEval(ev) {
+			// the pricing is published, the event is not yet logged: what a goroutine descheduled between setPricing and the
+			// hook call looks like. The event takes its place in the sequence when it is finally emitted.
+			seq = e.pool.VerifSeq()
+		}
+		e.evs.put(seq, out)
+		if (ev.Kind == "remove" || ev.Kind == "remove.miss") && t.isPacker != nil && t.isPacker() {
+			e.evs.emit(trace.Ev{"e": "RemoveEnd", "g": 95, "res": ev.Kind == "remove"})
+		}
 	}
 	if !ev.Locked && gateKinds[ev.Kind] && t.gate != nil {
 		t.gate(ev.Kind)
